@@ -132,6 +132,9 @@ type codec[T any] struct {
 
 var intCodec = codec[int]{func(i int) int { return i }, func(i int) int { return i }}
 
+// order isomorphism onto ints that are far apart (multiples of 2^61 around 0): differences of two elements overflow int64
+var xintCodec = codec[int]{func(i int) int { return (i - 2) * (1 << 61) }, func(x int) int { return x/(1<<61) + 2 }}
+
 // order isomorphism int -> string (fixed width, offset), "" decodes to the zero value 0
 var strCodec = codec[string]{
 	func(i int) string { return fmt.Sprintf("%06d", i+500000) },
@@ -441,6 +444,8 @@ func main() {
 				var o Out
 				if inst == "string" {
 					o = runCase(strCodec, cs, shape, inst)
+				} else if inst == "xint" {
+					o = runCase(xintCodec, cs, shape, inst)
 				} else {
 					o = runCase(intCodec, cs, shape, inst)
 				}
